@@ -116,11 +116,37 @@ class LfFn(Fn):
             return self.expr_stmt(e, e[1])
         fu = self.fetch_update(e)
         if fu: return fu
+        return self.ret_stmts(e)
+
+    def ret_stmts(self, e):
+        e0 = strip(e)
+        # Ok(str::from_utf8_unchecked(slice::from_raw_parts(p, n)))   =   let r = ..; Ok(r)
+        if self.rkind == "res_str" and e0[0] == "call" and is_path(e0[2], "Ok") and len(e0[3]) == 1:
+            v = strip(e0[3][0])
+            if v[0] == "call" and v[2][0] == "path" and names_of(v[2])[-2:] == ["str", "from_utf8_unchecked"]:
+                r = "str@%d" % e0[1]
+                st = self.let(("let", e0[1], ("pbind", e0[1], r, False), None, e0[3][0]))
+                return st + [("s", "LReturn (ROkRef %s)" % q(r), e0[1])]
         return [("s", "LReturn (%s)" % self.result(e), e[1])]
 
     def fetch_update(self, e):
         """self.F.fetch_update(O, O, |x| body).map(|_| ()).map_err(|_| LassoError::new(K))"""
         e = strip(e)
+        if e[0] == "match" and len(e[3]) == 2 and all(len(a) == 2 for a in e[3]):
+            # match self.F.fetch_update(O, O, f) { Ok(_) => Ok(()), Err(_) => Err(LassoError::new(K)) }
+            fu0 = strip(e[2])
+            if fu0[0] == "mcall" and fu0[3] == "fetch_update":
+                okv = errv = None
+                for pat, body in e[3]:
+                    if pat[0] == "ptuplestruct" and len(pat[3]) == 1 and pat[3][0][0] in ("pbind", "pwild"):
+                        b = strip(body)
+                        if is_path(pat[2], "Ok") and b[0] == "call" and is_path(b[2], "Ok") and len(b[3]) == 1 \
+                                and strip(b[3][0])[0] == "tuple" and not strip(b[3][0])[2]: okv = True
+                        if is_path(pat[2], "Err") and b[0] == "call" and is_path(b[2], "Err") and len(b[3]) == 1: errv = b[3][0]
+                if okv and errv is not None:
+                    unit = ("tuple", e[1], [])
+                    e = ("mcall", e[1], ("mcall", e[1], fu0, "map", [("closure", e[1], ["_"], unit)]), "map_err",
+                         [("closure", e[1], ["_"], errv)])
         if not (e[0] == "mcall" and e[3] == "map_err" and len(e[4]) == 1): return None
         if self.rkind != "res_unit": self.lost(e, "fetch_update chain in a function that does not return LassoResult<()>")
         c2 = e[4][0]
@@ -206,7 +232,7 @@ class LfFn(Fn):
             if e[2] is None:
                 if self.rkind != "unit": self.lost(e, "`return;` in a non-unit function")
                 return [("s", "LReturn RUnit", e[1])]
-            return [("s", "LReturn (%s)" % self.result(e[2]), e[1])]
+            return self.ret_stmts(e[2])
         if k == "macro":
             if e[2] == "verif_point":
                 return []                      # expands to nothing without --cfg lasso_verif
@@ -315,6 +341,9 @@ def run(repo, out):
     from lower_arena import Unit
     known = Known()
     A = Unit(repo, "src/arenas/lockfree.rs", "LockfreeArena", LF_FIELDS)
+    # interpreted by specification (or inlined by the lowering itself after a shape check): everything else of this file is inlined
+    A.keep = lambda ty, name, node: (ty, name) in {("LockfreeArena", "allocate_memory"), ("LockfreeArena", "set_bucket_capacity"),
+                                                   ("LockfreeArena", "current_memory_usage"), ("LockfreeArena", "get_max_memory_usage")}
     # ---- callees in atomic_bucket.rs: existence and signature only (replaced by their specification) ----
     bpath = os.path.join(repo, "src/arenas/atomic_bucket.rs")
     try:
@@ -340,7 +369,7 @@ def run(repo, out):
             for (p, _t), kd in zip([x for x in f[4] if x[0] != "self"], kinds):
                 fnl.sc.bind(p, kd, f[1])
                 if kd in ("num", "nz"): ps.append(p)
-            st = fnl.stmts(A.parser.fn_body(f), True)
+            st = fnl.stmts(A.body(f), True)
             if rk == "unit": st.append(("s", "LReturn RUnit", f[7]))
         except Lost as e:
             e.file = A.path; raise
@@ -362,7 +391,7 @@ def run(repo, out):
         fnl = LfFn("new", known, acc_ok)
         (p1, _), (p2, _) = f[4]
         fnl.sc.bind(p1, "nz", f[1]); fnl.sc.bind(p2, "num", f[1])
-        body = A.parser.fn_body(f)
+        body = A.body(f)
         t = strip(body[3]) if (not body[2] and body[3] is not None) else None
         if not (t and t[0] == "call" and is_path(t[2], "Ok") and len(t[3]) == 1 and strip(t[3][0])[0] == "struct"):
             raise Lost(f[1], "LockfreeArena::new body is not a single `Ok(Self {..})`")
@@ -397,13 +426,14 @@ def run(repo, out):
    closure once and succeeds, the CAS of try_inc_length succeeds at once); memory orderings are ignored;
    verif_point!(..) expands to nothing.  Callees replaced by their specification:
      %s
-   Accessors inlined at their call sites (after checking that their body is the plain load): %s *)
+   Accessors inlined at their call sites (after checking that their body is the plain load): %s
+   Private helpers of the source file inlined before lowering (astx.py): %s *)
 From Lasso Require Import Base Arena.
 From LassoGen Require Import GenPrelude GenIR GenIRLf.
 Open Scope string_scope.
 Open Scope N_scope.
 
-""" % (A.path, bpath, ", ".join(sorted(set("%s::%s" % (t, n) for t, n, _ in known.needs))), ", ".join(sorted(acc_ok)) or "none")
+""" % (A.path, bpath, ", ".join(sorted(set("%s::%s" % (t, n) for t, n, _ in known.needs))), ", ".join(sorted(acc_ok)) or "none", ", ".join(sorted(A.inlined)) or "none")
     tail = "\n#[global] Hint Unfold %s : arenagen.\n" % " ".join(names)
     open(os.path.join(out, "LockfreeGen.v"), "w").write(hdr + "\n".join(parts) + tail)
     print("rust2coq: lockfree: %d definitions -> %s" % (len(names), os.path.join(out, "LockfreeGen.v")))
